@@ -34,6 +34,9 @@ pub trait FactoryModule:
         initial_supply: BigUint,
         minter: ManagedAddress,
     ) -> TokenId<Self::Api> {
+        // Every step of the local deployment (also the last one, which mints) is refused while paused
+        self.require_not_paused();
+
         let sender = self.blockchain().get_caller();
         let deploy_salt = self.interchain_token_deploy_salt(&sender, &salt);
         let current_chain = ManagedBuffer::new();
@@ -387,6 +390,10 @@ pub trait FactoryModule:
         destination_minter: ManagedBuffer,
         sender: ManagedAddress,
     ) -> TokenId<Self::Api> {
+        // Refuse while paused here already: the ESDT path only checks it in the asynchronous callback,
+        // after the gas value has been taken
+        self.require_not_paused();
+
         // Ensure that a token is registered locally for the tokenId before allowing a remote deployment
         let expected_token_id = self.interchain_token_id_raw(&deploy_salt);
         let token_identifier = self.registered_token_identifier(&expected_token_id);
